@@ -1147,6 +1147,9 @@ def remove_duplicate_functions(source: str, preserve: Collection[str]) -> str:
     )
     binding_counts.update(node.id for node in core.walk(root, ast.Name(ctx=ast.Store)))
     binding_counts.update(tracing.get_imported_names(root))
+    binding_counts.update(
+        handler.name for handler in core.walk(root, ast.ExceptHandler) if handler.name
+    )
 
     for node in core.filter_nodes(root.body, ast.FunctionDef):
         if binding_counts[node.name] > 1:
